@@ -6,6 +6,7 @@ V=$(pwd)
 git -C /repo diff --quiet || { echo "/repo is dirty"; exit 2; }
 for d in seeded/*/; do
   n=$(basename "$d"); p=$(echo "$n" | sed 's/^S[0-9]*-\(C[0-9]*\)-.*/\1/')
+  if grep -q '"obsolete"' "$d/meta.json"; then echo "OBSOLETE $n (see meta.json)"; continue; fi
   if ! git -C /repo apply --check "$V/$d/patch.diff" 2>/dev/null; then echo "NOAPPLY $n"; continue; fi
   git -C /repo apply "$V/$d/patch.diff"
   out=$(./check "$p" 2>&1 | grep -E "^VIOLATION|^MACHINERY| quick:" | tail -1 | cut -c1-160)
